@@ -266,6 +266,9 @@ def x_fileinfo():
             return [prefix + mm.group(1)]
         out = []
         for c in expr.split("&&"):
+            if ty == "FileInfo" and re.fullmatch(r"\(?\s*isMissing\(\) == rhs\.isMissing\(\)\s*\)?", c.strip()):
+                eq_missing.append(True)     # the missing record never equals an existing object
+                continue
             m2 = re.fullmatch(r"\(?\s*(\w+) == rhs\.(\w+)\s*\)?", c.strip())
             if not m2 or m2.group(1) != m2.group(2) or m2.group(1) not in st[ty]:
                 raise ExtractError("%s::operator==: unexpected conjunct %r" % (ty, c))
@@ -277,6 +280,7 @@ def x_fileinfo():
             else:
                 raise ExtractError("%s::operator==: unsupported member %s" % (ty, m2.group(1)))
         return out
+    eq_missing = []
     eqf = eq_fields("FileInfo")
     mb = norm(function_body(struct_body(src, "FileInfo"), r"bool\s+isMissing\s*\(\s*\)\s*const"))
     m = re.fullmatch(r"return \((.*)\);", mb)
@@ -303,7 +307,9 @@ def x_fileinfo():
             "/-- fields compared by `FileInfo::operator==` (through `FileTimestamp::operator==`, `FileChecksum::operator==`) -/",
             "def fileInfoEqFields : List FIField := [" + ", ".join("." + f for f in eqf) + "]",
             "/-- fields tested against zero by `FileInfo::isMissing()` -/",
-            "def fileInfoMissingFields : List FIField := [" + ", ".join("." + f for f in miss) + "]"]
+            "def fileInfoMissingFields : List FIField := [" + ", ".join("." + f for f in miss) + "]",
+            "/-- `operator==` also requires `isMissing() == rhs.isMissing()` -/",
+            "def fileInfoEqChecksMissing : Bool := %s" % ("true" if eq_missing else "false")]
     # CommandSignature
     relh = "include/llbuild/Basic/Hashing.h"
     hs = strip_comments(read(relh))
